@@ -64,6 +64,7 @@ type c14Model struct {
 	volData  [][]byte
 	fs0      *envfs.FS
 	index    string
+	listing  int // 1: directory listings come back reversed, 2: rotated by one (in-memory models)
 	p2       *scen.P2Set
 	p1       *scen.P1Set
 	seed     int64
@@ -202,8 +203,30 @@ type c14Verdict struct {
 	counts string
 }
 
+// order installs the model's listing order on fs.
+func (m *c14Model) order(fs *envfs.FS) {
+	switch m.listing {
+	case 1:
+		fs.Order = func(l []string) []string {
+			out := append([]string{}, l...)
+			for i, j := 0, len(out)-1; i < j; i, j = i+1, j-1 {
+				out[i], out[j] = out[j], out[i]
+			}
+			return out
+		}
+	case 2:
+		fs.Order = func(l []string) []string {
+			if len(l) < 2 {
+				return l
+			}
+			return append(append([]string{}, l[1:]...), l[0])
+		}
+	}
+}
+
 func (m *c14Model) verify(fs *envfs.FS) (c14Verdict, *core.PanicInfo, []string) {
 	before := fs.Snapshot()
+	m.order(fs)
 	var v c14Verdict
 	if m.disk {
 		root := c14DiskRoot()
@@ -287,6 +310,7 @@ func (m *c14Model) repair(fs *envfs.FS, dc bool) (paths []string, err error, pi 
 		return
 	}
 	fs.ResetLog()
+	m.order(fs)
 	pi = core.Catch(func() {
 		if m.par1 {
 			res, e := par1.VerifRepair(fs, m.index, par1.RepairOptions{DoubleCheck: dc})
@@ -367,6 +391,14 @@ func c14Build(name string, seed int64) *c14Model {
 	if strings.HasSuffix(name, "-disk") {
 		m.disk = true
 		name = strings.TrimSuffix(name, "-disk")
+	}
+	if strings.HasSuffix(name, "-rev") {
+		m.listing = 1
+		name = strings.TrimSuffix(name, "-rev")
+	}
+	if strings.HasSuffix(name, "-rot") {
+		m.listing = 2
+		name = strings.TrimSuffix(name, "-rot")
 	}
 	all := []int{vOrig, vMissing, vFirstChanged, vLastDropped, vPrepended, vOther, vEmpty, vAppendedGarbage, vAppendedZero}
 	// "p2base:<b>" / "p1base:<b>": the small models with the index file named <b>.par2 / <b>.par (base names that end in
@@ -694,7 +726,7 @@ func init() {
 	core.Register(&core.Prop{
 		ID:    "C14",
 		Level: "model_checking",
-		Rule: "explicit-state breadth-first search to closure of the directory-state graph. PAR2 small: 2 files (one slice-aligned, both ending in zero bytes) x 9 contents {original, missing, first byte changed, last byte dropped, one byte prepended, other file's content, empty, garbage byte appended, zero byte appended} x 3 recovery files {present, absent}; PAR2 large: 3 files x 9 contents x 4 recovery files; PAR2 with a file of exactly 16384 bytes (3 contents, slice 4096); PAR2 small with a stray file matching the recovery-file pattern (another set's index) listed first / between the recovery files (2 files x 4 contents x 3 recovery files); PAR1: 3 files x 5 contents x 2 volumes; PAR1 at the format's limits: 254 files + volumes .p01/.p02 (full 256-shard space; events on the first and last file, 3 contents) and 3 files with volumes .p01 and .p99 of 99 (the volumes in between never arrived); the small PAR2 / PAR1 models under 8 other index base names each (ending in characters of the extension, dotted, named like a recovery file, with a blank; 4 contents / 3 contents; alternately in memory and on disk); thorough adds 3 files x 9 contents x 5 recovery files (16 blocks), 4 files x 9 contents x 3 recovery files, and PAR1 4 files x 5 contents x 3 volumes. " +
+		Rule: "explicit-state breadth-first search to closure of the directory-state graph. PAR2 small: 2 files (one slice-aligned, both ending in zero bytes) x 9 contents {original, missing, first byte changed, last byte dropped, one byte prepended, other file's content, empty, garbage byte appended, zero byte appended} x 3 recovery files {present, absent}; PAR2 large: 3 files x 9 contents x 4 recovery files; PAR2 with a file of exactly 16384 bytes (3 contents, slice 4096); PAR2 small with a stray file matching the recovery-file pattern (another set's index) listed first / between the recovery files (2 files x 4 contents x 3 recovery files); the small and the stray-file models with directory listings returned reversed / rotated; PAR1: 3 files x 5 contents x 2 volumes; PAR1 at the format's limits: 254 files + volumes .p01/.p02 (full 256-shard space; events on the first and last file, 3 contents) and 3 files with volumes .p01 and .p99 of 99 (the volumes in between never arrived); the small PAR2 / PAR1 models under 8 other index base names each (ending in characters of the extension, dotted, named like a recovery file, with a blank; 4 contents / 3 contents; alternately in memory and on disk); thorough adds 3 files x 9 contents x 5 recovery files (16 blocks), 4 files x 9 contents x 3 recovery files, and PAR1 4 files x 5 contents x 3 volumes. " +
 			"Plus the Decoder protocol search: EVERY sequence of <=6 (thorough 7) operations {LoadFileData, LoadParityData, both, counts, Repair, Repair+check, delete a, change a, delete b, restore data, delete / restore first recovery file} on ONE exported Decoder object (PAR1, PAR2; in memory via the constructor hook; <=4 (thorough 5) through the exported constructor on a real directory); calls are judged when the object's last loads match the directory (counts == truth; Repair succeeds iff lost <= capacity, restores exactly the damaged files, makes no file worse). " +
 			"Plus non-interference inside one process: every ordered pair, and every triple whose middle call fails or is interrupted (thorough: every triple), of 54 top-level calls (PAR1/PAR2 x Verify in 6 states, Repair in 4 states x 2 sets, Verify / Repair of a twin set with the same geometry and paths but other contents, Repair and Create interrupted by a torn write, Create in 7 variants incl. other block counts); the reference observation of each call comes from a fresh process, each on a private in-memory directory, run back to back with garbage collection off; the last call's full observation (error, result, every write, final directory) must equal that of the same call made alone. " +
 			"Events: damage(f,w), restore(f), delete/restore recovery file, Verify, Repair, Repair+double-check. The small PAR2 and the PAR1 model are searched twice: on the owned in-memory filesystem and through the exported API on a real directory (rewrites detected by modification time). Every Verify/Repair transition executes the real code on a fresh filesystem built from the state (gopar keeps no state between calls). Invariants on every transition: Verify leaves the state unchanged and gives equal results for equal states; successful Repair => all original, Verify clean, a further Repair in both modes writes nothing and lists nothing; failed Repair => every file holds its previous content or its original, and no protected content that was findable before the call (under whatever name) is unfindable after it; from every reachable state, restoring all recovery files and repairing reaches the original whenever capacity suffices. non-trivial = states in which Repair wrote files or failed",
@@ -711,6 +743,11 @@ func init() {
 			g.Emit(&c14Case{Model: "p2crc8"})
 			g.Emit(&c14Case{Model: "p2stray-first"})
 			g.Emit(&c14Case{Model: "p2stray-mid"})
+			// directory listings that come back in another order (reversed, rotated)
+			g.Emit(&c14Case{Model: "p2small-rev"})
+			g.Emit(&c14Case{Model: "p2small-rot"})
+			g.Emit(&c14Case{Model: "p2stray-first-rev"})
+			g.Emit(&c14Case{Model: "p2stray-mid-rot"})
 			g.Emit(&c14Case{Model: "p1full"})
 			g.Emit(&c14Case{Model: "p1vol99"})
 			// other names for the index file: ending in characters of the extension, dotted, looking like a recovery file
